@@ -116,6 +116,30 @@ def _model_inputs(model, h, K, consts, layer):
     return steps
 
 
+def schedule_of(h):
+    """cyclic list of tuples of ticking domains per step: explicit `schedule`, or derived from `clocks`
+    ({domain: (period_in_steps, phase_step)}: the domain ticks at steps t with t % period == phase)"""
+    if getattr(h, "clocks", None):
+        import math
+        L = 1
+        for per, ph in h.clocks.values():
+            L = L * per // math.gcd(L, per)
+        return [tuple(d for d, (per, ph) in h.clocks.items() if t % per == ph) for t in range(L)]
+    return h.schedule
+
+
+def _setup_clocks(sim, h, T=1e-6):
+    """single-rate harnesses: every domain gets the same clock.  Multi-rate (`clocks`): aligned clocks; the test bench
+    then steps by time (one step = T), sampling between edges, so coincident edges of related clocks are seen as one."""
+    if getattr(h, "clocks", None):
+        for d, (per, ph) in h.clocks.items():
+            sim.add_clock(per * T, phase=(ph + 0.5) * T, domain=d)
+        return True
+    for d in h.domains:
+        sim.add_clock(T, domain=d)
+    return False
+
+
 def simulate(factory, steps, mem_values=None, watch_all=False):
     """Run per-step inputs on Amaranth's simulator; returns list of dicts of observed values."""
     from amaranth.sim import Simulator
@@ -124,8 +148,7 @@ def simulate(factory, steps, mem_values=None, watch_all=False):
         h._mem_values = mem_values
         h.apply_mem_values(mem_values)
     sim = Simulator(h)
-    for d in h.domains:
-        sim.add_clock(1e-6, domain=d)
+    timed = _setup_clocks(sim, h)
     watched = {}
     for tab, pre in ((h._viols, "viol_"), (h._covers, "cover_"), (h._assumes, "assume_"), (h._kfs, "kf_")):
         for n, s in tab.items():
@@ -139,7 +162,10 @@ def simulate(factory, steps, mem_values=None, watch_all=False):
             for name, val in d.items():
                 ctx.set(h._inputs[name][0], val)
             trace.append({n: ctx.get(s) for n, s in watched.items()})
-            await ctx.tick(h.domain)
+            if timed:
+                await ctx.delay(1e-6)
+            else:
+                await ctx.tick(h.domain)
 
     sim.add_testbench(tb)
     sim.run()
@@ -176,7 +202,7 @@ class Unrolling:
             state = ts.init_state(_mem_override(ts, q, self.consts))
         self.state0 = state
         okc = z3.BoolVal(True)
-        sched = h.schedule
+        sched = schedule_of(h)
         for t in range(q.K):
             ins = _input_vars(ts, h, t, self.consts, q.layer)
             f = ts.frame(state, ins)
@@ -262,7 +288,7 @@ class FastUnrolling:
                 if s in ts.netlist.signals and len(s) > 0:
                     self.watched.append(s)
         self._widx = {id(s): k for k, s in enumerate(self.watched)}
-        self._tm = tm = Template(ts, self.watched, h.schedule)
+        self._tm = tm = Template(ts, self.watched, schedule_of(h))
         self._skeys = tm.skeys
         domsets = tm.domsets
         # ---- instantiate
@@ -511,8 +537,7 @@ def run_cosim(q, prop, findings):
     sim._engine = PySimEngine(ts.design)
     sim._clocked = set()
     sim._running = False
-    for d in h.domains:
-        sim.add_clock(1e-6, domain=d)
+    timed = _setup_clocks(sim, h)
     watched = list(h._viols.values()) + list(h._covers.values()) + list(h._assumes.values()) + \
         list(h._kfs.values()) + list(h._obs.values()) + regs
     watched = [s for s in watched if s in ts.netlist.signals]
@@ -523,12 +548,15 @@ def run_cosim(q, prop, findings):
             for name, val in d.items():
                 ctx.set(h._inputs[name][0], val)
             simtrace.append([ctx.get(s) for s in watched])
-            await ctx.tick(h.domain)
+            if timed:
+                await ctx.delay(1e-6)
+            else:
+                await ctx.tick(h.domain)
 
     sim.add_testbench(tb)
     t0 = time.time()
     sim.run()
-    tm = Template(ts, watched, h.schedule)
+    tm = Template(ts, watched, schedule_of(h))
     cur = tm.init_values(ts.init_state())
     mism = []
     events = 0
